@@ -547,6 +547,31 @@ func c06Table() []c06Case {
 		"permit(principal, action, resource) when { false && principal == User::\"a\" };", "permit(principal, action, resource) unless { principal == User::\"b\" };")
 	igc := tableTemplate(nil, nil, vh.MkIgnore(), vh.MkIgnore(), nil)
 	add("ignore-context-resource", igc, "permit(principal, action, resource is Doc) when { context.n == 1 };", "permit(principal, action, resource) when { principal == User::\"a\" } unless { context has x };", "permit(principal, action, resource) when { resource in Doc::\"a\" || principal == User::\"b\" };")
+	// an operand that is directly an unknown FOLLOWED (or preceded) by an operand over an ignored part, in every
+	// n-ary node kind whose operands are walked by one loop (comparison, arithmetic, membership, set / record
+	// literal, extension call, is..in): the ignored reference must be noticed wherever it stands among the operands,
+	// so that a permit is widened (condition dropped), never kept depending on the ignored part
+	pairs := func(u, i string, shapes ...string) []string {
+		var out []string
+		for _, sh := range shapes {
+			for _, ops := range [][2]string{{u, i}, {i, u}} {
+				body := strings.NewReplacer("$1", ops[0], "$2", ops[1]).Replace(sh)
+				out = append(out, "permit(principal, action, resource) when { "+body+" };", "permit(principal, action, resource) when { context.n == 1 } when { "+body+" };",
+					"forbid(principal, action, resource) when { "+body+" };", "permit(principal, action, resource) unless { "+body+" };")
+			}
+		}
+		return out
+	}
+	entShapes := []string{"$1 == $2", "$1 != $2", "$1 in $2", "$1 in [$2, Group::\"a\"]", "[$1, $2].contains(User::\"a\")", "[$1].containsAny([$2, User::\"a\"])", "[$1, User::\"a\"].containsAll([$2])",
+		"{a: $1, b: $2}.a != Group::\"a\"", "[{a: $1}, {a: $2}].isEmpty() == false", "$1 is User in $2 || $1 == $2", "($1 == User::\"a\") == ($2 == Doc::\"a\")", "$1.hasTag(\"t1\") == $2.hasTag(\"t1\")"}
+	ui := tableTemplate(V("p"), nil, vh.MkIgnore(), rec("n", types.Long(1)), map[types.String]vh.Ty{"p": vh.TEntity})
+	add("unknown-then-ignored-entity", ui, pairs("principal", "resource", entShapes...)...)
+	uic := tableTemplate(V("p"), nil, nil, vh.MkIgnore(), map[types.String]vh.Ty{"p": vh.TEntity})
+	add("unknown-then-ignored-context", uic, pairs("principal", "context", "$1 != $2", "[$1, $2].isEmpty() == false", "{a: $1, b: $2} has a")...)
+	longShapes := []string{"$1 == $2", "$1 != $2", "$1 < $2", "$1 <= $2", "$1 > $2", "$1 >= $2", "$1 + $2 < 100", "$1 - $2 < 100", "$1 * $2 < 100", "[$1, $2].contains(2)", "[$1].containsAll([$2]) || true == true",
+		"{a: $1, b: $2}.b < 100", "decimal(\"1.0\").lessThan(decimal(\"2.0\")) == ($1 == $2)", "(if $1 == 2 then 1 else 2) != $2"}
+	il := tableTemplate(vh.MkIgnore(), nil, nil, rec("key", V("k"), "n", types.Long(1)), map[types.String]vh.Ty{"k": vh.TLong})
+	add("unknown-then-ignored-long", il, pairs("context.key", "principal.n", longShapes...)...)
 	return out
 }
 
@@ -554,7 +579,7 @@ func runC06(c *vh.Ctx) {
 	g := vh.NewGen(c.Rng)
 	g.PWrong = 0.04
 	b := &vh.Batch{}
-	c.Res.Rule = "hand-written table (every known defect with forbid/unless/scoped variants, sound neighbours, ignore handling) then random cases: request templates with unknowns in principal/action/resource/context and nested in context records and sets (depth<=3, same unknown reused), ignore markers, x policies generated over the unknown positions (attribute paths, whole-value comparison, membership, has/in/is/like, arithmetic, &&/||/if) x every completion from a universe of the policy's literals, their neighbours and off-type values (sampled above the cap); distinct = distinct (policy, partial env) encodings; non-trivial = the policy mentions at least one unknown or ignored position and at least one completion was evaluated"
+	c.Res.Rule = "hand-written table (every known defect with forbid/unless/scoped variants, sound neighbours, ignore handling; every n-ary node kind with an operand that is directly an unknown next to an operand over an ignored part, in both operand orders, over entity / context / long-typed parts) then random cases: request templates with unknowns in principal/action/resource/context and nested in context records and sets (depth<=3, same unknown reused), ignore markers, x policies generated over the unknown positions (attribute paths, whole-value comparison, membership, has/in/is/like, arithmetic, &&/||/if) x every completion from a universe of the policy's literals, their neighbours and off-type values (sampled above the cap); distinct = distinct (policy, partial env) encodings; non-trivial = the policy mentions at least one unknown or ignored position and at least one completion was evaluated"
 	intens := 1
 	if os.Getenv("VERIF_INTENSIFY") != "" {
 		intens = 4
